@@ -118,6 +118,16 @@ check('C08',
       'Baton scheduler (mc/explore/vthreads.py): one thread runs at a time; non-default successor at a blocking point costs one deviation; replay determinism self-checked every 97th schedule.',
       'DESIGN.md C08')
 
+check('C09',
+      'stateless deviation-bounded schedule exploration of JobControl+ScriptJob+Machine+Clock over virtual time with the stop request gated at every scheduling point',
+      'For every (script shape x stop API) pair the stop is issued at EVERY scheduling point after the job thread was started (first 70 points, free choice) '
+      'combined with every schedule with <=1 further deviation (preemption, non-default successor, stall) inside a window after the stop (quick: 8 deep pairs, others stop '
+      'positions only; thorough: all pairs, plus 2 deviations on narrowed windows). Judged per execution: at most one VM instruction begins after the stop returned, '
+      'the job thread ends before the virtual horizon although the awaited delay/time never arrives, no DEADLOCK/SPIN/OVERRUN, follower runs (or was legitimately '
+      'cleared/stopped), re-queued run completes.',
+      'Real Clock thread on virtual time (tick 1 s), fair scheduler (time slice, yield on already-set event). One open known finding (stop before the run is armed), 5 signatures by script.',
+      'DESIGN.md C09')
+
 NOT_YET = 'check not built yet in this session (design in DESIGN.md); will be claimed when its command exists'
 
 
